@@ -13,7 +13,10 @@ Three exhaustive families on the real code, each with a plain-python reference:
     next(), next(gen), new of classes with 0 / 1 / 2 id attributes, new with
     explicit ids, all on one metamodel; for IntegerGenerator, UUIDGenerator,
     the metamodel's own default generator and two user-supplied subclasses.
- C  two live generators: every interleaving of peek/next on two generators.
+    A second search per generator adds the iteration protocols: it = iter(g) /
+    next(it), for v in g: ... break, itertools.islice(g, n), zip(range(n), g).
+ C  two live generators: every interleaving of peek / next / next(iter(g)) on
+    two generators.
 
 Reference: defaults False / 0 / 0.0 / '' compared by value AND type; positional
 arguments land on the attributes in declaration order, keyword arguments are
@@ -44,6 +47,10 @@ ASSUMPTIONS = [
     '"the metamodel\'s generator" is the object m.id_generator holds when the instance is created (family D replaces it '
     'between creations) and "attribute order"/"every non-referential attribute" refer to the class as it is at that moment '
     '(family D appends, inserts and deletes attributes between creations); ids of different generators may coincide by design',
+    'a generator is its own supply of ids whatever the calling form: iter(g) hands nothing out, and every value obtained through '
+    'next(it) with it = iter(g), a for loop left with break, itertools.islice or zip(range(n), g) counts as handed out '
+    '(consumed exactly once, in sequence), exactly like g.next() and next(g); iteration forms that pull a value and drop it '
+    '(zip(g, range(n))) are not generated',
     'keyword arguments are spelled as declared (other spellings: C10); the value read back for a referential attribute is '
     'compared only when the call supplied the id of an existing instance',
 ]
@@ -548,15 +555,41 @@ class BWorld(object):
     pass
 
 
+# menu 'iter': ids are also obtained through the iteration protocols -- it = iter(g) / next(it), for v in g: ... break,
+# itertools.islice(g, n), zip(range(n), g) -- interleaved with peek / next / next(g) / creations.  Reference: iter(g) hands
+# nothing out; every value obtained through any of these forms is handed out (consumed) exactly once, in sequence.
+ITER_NEW = ['new K1', 'new K2', 'new K2 x Id2=y']
+ITER_TAKE = ['for', 'islice', 'zip']
+ITER_MAX_TAKE = 2
+ITER_MAX_ITERATORS = 2
+
+
+def take(gen, how, n):
+    '''n values of *gen* through an iteration protocol.'''
+    if how == 'for':
+        got = []
+        for v in gen:
+            got.append(v)
+            if len(got) >= n:
+                break
+        return got
+    if how == 'islice':
+        return list(itertools.islice(gen, n))
+    if how == 'zip':
+        return [v for _, v in zip(range(n), gen)]
+    raise ValueError(how)
+
+
 class GenModel(explorer.Model):
     limit_s = 10.0
 
-    def __init__(self, kind, cap):
+    def __init__(self, kind, cap, menu='plain'):
         self.kind = kind
         self.cap = cap
+        self.menu = menu
 
     def case(self, hist, op):
-        return dict(part='history', gen=self.kind, cap=self.cap, hist=hist, op=op)
+        return dict(part='history', gen=self.kind, cap=self.cap, menu=self.menu, hist=hist, op=op)
 
     def build(self, hist):
         w = BWorld()
@@ -567,6 +600,8 @@ class GenModel(explorer.Model):
         w.explicit = 0
         w.last = None
         w.peeks = 0
+        w.it = None                # the live iterator obtained with iter(g) (menu 'iter')
+        w.it_taken = w.iters = 0
         for op in hist:
             self.step(w, op)
         return w
@@ -576,7 +611,17 @@ class GenModel(explorer.Model):
         hi = w.ref.pos + getattr(w.ref, 'slack', 0)     # upper bound of values drawn so far
         if hi + 1 <= self.cap:
             ops += [['next'], ['pynext']]
+        if self.menu == 'iter':
+            if w.iters < ITER_MAX_ITERATORS and (w.it is None or w.it_taken):
+                ops.append(['iter'])
+            if w.it is not None and hi + 1 <= self.cap:
+                ops.append(['itnext'])
+            for n in range(1, ITER_MAX_TAKE + 1):
+                if hi + n <= self.cap:
+                    ops += [[how, n] for how in ITER_TAKE]
         for name, (cls, explicit) in B_NEW.items():
+            if self.menu == 'iter' and name not in ITER_NEW:
+                continue
             n_ids = sum(1 for _, t in dict(B_CLASSES)[cls] if t.upper() == 'UNIQUE_ID')
             if n_ids == 0:
                 if w.made[cls] < 2:
@@ -598,6 +643,26 @@ class GenModel(explorer.Model):
         if name == 'pynext':
             v = next(w.gen)
             return [(k, m, e, v) for k, m, e in w.ref.next(v)]
+        if name == 'iter':
+            w.it = iter(w.gen)
+            w.it_taken = 0
+            w.iters += 1
+            return []
+        if name == 'itnext':
+            v = next(w.it)
+            w.it_taken += 1
+            return [('iteration:' + k.split(':', 1)[1], 'next(it), it = iter(g): ' + m, e, v) for k, m, e in w.ref.next(v)]
+        if name in ITER_TAKE:
+            w.last = '%s%d' % (name, op[1])
+            got = take(w.gen, name, op[1])
+            out = []
+            if len(got) != op[1]:
+                out.append(('iteration:length', '%d values were asked for through %s, %d arrived' % (op[1], name, len(got)),
+                            op[1], got))
+            for v in got:
+                out += [('iteration:' + k.split(':', 1)[1], '%s handed out %r: %s' % (name, got, m), e, got)
+                        for k, m, e in w.ref.next(v)]
+            return out
         cls, how = B_NEW[name]
         decl = dict(B_CLASSES)[cls]
         args, kwargs, explicit = [], {}, {}
@@ -619,13 +684,19 @@ class GenModel(explorer.Model):
         ctx.distinct('outcomes', ('history', self.kind, op[0], bool(w.ref.pending is not None)))
         if op[0] in ('next', 'pynext', 'peek'):
             ctx.count('generator_calls')
+        elif op[0] in ('iter', 'itnext') or op[0] in ITER_TAKE:
+            ctx.count('generator_calls')
+            ctx.count('iteration_steps')
         else:
             ctx.count('news')
+            if self.menu == 'iter' and (w.it_taken or any(h[0] in ITER_TAKE for h in hist)):
+                ctx.count('creations_after_iteration')
         if op[0] != 'peek' and w.peeks:
             ctx.count('consumption_after_peek')
         for kind, msg, exp, obs in problems[:1]:
             ctx.violation('c19:' + kind, self.case(hist, op), 'generator %s, history %s, then %s: %s' %
-                          (self.kind, [o[0] for o in hist], op[0], msg), exp, obs, unit_test=unit_test_history(self, hist, op))
+                          (self.kind, [' '.join(str(x) for x in o) for o in hist], ' '.join(str(x) for x in op), msg), exp, obs,
+                          unit_test=unit_test_history(self, hist, op))
         return not problems
 
     def probes(self, ctx, w, hist):
@@ -634,22 +705,26 @@ class GenModel(explorer.Model):
     def canon(self, w):
         mask = tuple(min(w.made[k], 2) if k == 'K0' else bool(w.made[k]) for k, _ in B_CLASSES)
         proxy = getattr(w.gen, '_current', None) if self.kind in ('int', 'user') else None
+        if self.menu == 'iter':
+            itstate = 0 if w.it is None else 2 if w.it_taken else 1
+            return (w.ref.pos, getattr(w.ref, 'slack', 0), w.ref.pending is not None, itstate, w.iters, w.last,
+                    bool(w.explicit), proxy)
         return (w.ref.pos, getattr(w.ref, 'slack', 0), w.ref.pending is not None, mask, w.last, bool(w.explicit), proxy)
 
 
 def run_history(sub, task):
-    kind, cap = task
-    res = explorer.bfs(sub, GenModel(kind, cap), chunk=1 << 30, label='history-' + kind)
+    kind, cap, menu = task
+    res = explorer.bfs(sub, GenModel(kind, cap, menu), chunk=1 << 30, label='history-%s%s' % ('iter-' if menu == 'iter' else '', kind))
     deepest = max(res['seen'].values(), key=len)
-    return dict(generator=kind, cap=cap, states=res['states'], depth=res['depth'], closed=res['closed'],
-                deepest_history=[o[0] for o in deepest])
+    return dict(generator=kind, cap=cap, menu=menu, states=res['states'], depth=res['depth'], closed=res['closed'],
+                deepest_history=[''.join(str(x) for x in o) for o in deepest])
 
 
 def unit_test_history(model, hist, op):
     gen = {'int': 'xtuml.IntegerGenerator()', 'uuid': 'xtuml.UUIDGenerator()', 'default': '',
            'user': 'Tens()   # class Tens(xtuml.IdGenerator): _n = 0; readfunc: self._n += 10; return self._n',
            'recuuid': 'RecUUID()   # UUIDGenerator subclass recording the values of readfunc'}[model.kind]
-    lines = ['import xtuml', 'm = xtuml.MetaModel(%s); g = m.id_generator' % gen]
+    lines = ['import itertools', 'import xtuml', 'm = xtuml.MetaModel(%s); g = m.id_generator' % gen]
     for k, a in B_CLASSES:
         lines.append('m.define_class(%r, %r)' % (k, a))
     n = [0]
@@ -661,6 +736,16 @@ def unit_test_history(model, hist, op):
             return 'print(g.next())'
         if o[0] == 'pynext':
             return 'print(next(g))'
+        if o[0] == 'iter':
+            return 'it = iter(g)'
+        if o[0] == 'itnext':
+            return 'print(next(it))'
+        if o[0] == 'for':
+            return 'got = []\nfor v in g:\n    got.append(v)\n    if len(got) >= %d:\n        break\nprint(got)' % o[1]
+        if o[0] == 'islice':
+            return 'print(list(itertools.islice(g, %d)))' % o[1]
+        if o[0] == 'zip':
+            return 'print([v for _, v in zip(range(%d), g)])' % o[1]
         cls, how = B_NEW[o[0]]
         decl = dict(B_CLASSES)[cls]
         parts = []
@@ -678,7 +763,8 @@ def unit_test_history(model, hist, op):
 # family C: two live generators
 # ---------------------------------------------------------------------------
 
-C_OPS = ['peek0', 'next0', 'peek1', 'next1']
+# iterN: next(itN) where itN = iter(gN) is obtained at the first use and kept
+C_OPS = ['peek0', 'next0', 'peek1', 'next1', 'iter0', 'iter1']
 C_PAIRS = [('int', 'int'), ('int', 'user'), ('recuuid', 'uuid'), ('zerobased', 'int')]
 
 
@@ -705,10 +791,18 @@ def run_two(sub, case):
 def _two(sub, case):
     gens = [make_metamodel(k)[1] for k in case['pair']]
     refs = [GenRef(k, g) for k, g in zip(case['pair'], gens)]
+    its = [None, None]
     for step, o in enumerate(case['ops']):
-        which, is_next = o // 2, o % 2
+        name = C_OPS[o]
+        which, is_next = int(name[-1]), name.startswith('next')
         sub.count('generator_calls')
-        if is_next:
+        if name.startswith('iter'):
+            if its[which] is None:
+                its[which] = iter(gens[which])
+            v = next(its[which])
+            sub.count('iteration_steps')
+            problems = [('iteration:' + k.split(':', 1)[1], m, e) for k, m, e in refs[which].next(v)]
+        elif is_next:
             v = gens[which].next() if step % 2 else next(gens[which])
             problems = refs[which].next(v)
         else:
@@ -930,12 +1024,14 @@ def run(ctx):
     cap = 6 if ctx.quick else 9
     total = 0
     # (one search per worker, each run in-process: the searches are small and independent)
-    for res in ctx.pmap(run_history, [(kind, cap) for kind in explorer.rotate(GEN_KINDS_B, ctx.seed)], chunk=1):
+    htasks = [(kind, cap, menu) for menu in ('plain', 'iter') for kind in explorer.rotate(GEN_KINDS_B, ctx.seed)]
+    for res in ctx.pmap(run_history, htasks, chunk=1):
         total += res['states']
-        ctx.notes['history-' + res['generator']] = dict(states=res['states'], depth=res['depth'], closed=res['closed'])
+        label = 'history-%s%s' % ('iter-' if res['menu'] == 'iter' else '', res['generator'])
+        ctx.notes[label] = dict(states=res['states'], depth=res['depth'], closed=res['closed'])
         ctx.sample(res)
-        print('  history %-8s states=%d depth=%d closed=%s t=%.0fs' % (res['generator'], res['states'], res['depth'],
-                                                                       res['closed'], ctx.elapsed()), flush=True)
+        print('  %-20s states=%d depth=%d closed=%s t=%.0fs' % (label, res['states'], res['depth'],
+                                                                 res['closed'], ctx.elapsed()), flush=True)
     # -- C: two live generators
     depth = 6 if ctx.quick else 8
     ctasks = []
@@ -960,7 +1056,10 @@ def run(ctx):
     ctx.require(ctx.n('unknown_rejected') >= 500, 'too few rejected unknown types (%d)' % ctx.n('unknown_rejected'))
     ctx.require(total >= 5 * 100, 'too few generator-history states (%d)' % total)
     ctx.require(ctx.n('consumption_after_peek') >= 1000, 'too few consuming operations after a peek')
-    ctx.require(ctx.n('two_generator_sequences') >= len(C_PAIRS) * 4 ** depth, 'two-generator family incomplete')
+    ctx.require(ctx.n('two_generator_sequences') >= len(C_PAIRS) * len(C_OPS) ** depth, 'two-generator family incomplete')
+    ctx.require(ctx.n('iteration_steps') >= 10000, 'too few values obtained through iteration (%d)' % ctx.n('iteration_steps'))
+    ctx.require(ctx.n('creations_after_iteration') >= 1000, 'too few creations after an iteration (%d)' %
+                ctx.n('creations_after_iteration'))
     ctx.require(ctx.nd('outcomes') >= 100, 'too few distinct outcomes (%d)' % ctx.nd('outcomes'))
 
 
@@ -969,7 +1068,7 @@ def replay(ctx, case):
     if part == 'create':
         run_creation(ctx, case)
     elif part == 'history':
-        explorer.replay_case(ctx, GenModel(case['gen'], case['cap']), case['hist'], case.get('op'))
+        explorer.replay_case(ctx, GenModel(case['gen'], case['cap'], case.get('menu', 'plain')), case['hist'], case.get('op'))
     elif part == 'two-generators':
         run_two(ctx, case)
     elif part == 'live-edit':
@@ -997,6 +1096,10 @@ def coverage(ctx):
         histories=dict((k, v) for k, v in ctx.notes.items() if isinstance(v, dict)),
         history_states=ctx.n('states'),
         two_generator_sequences=ctx.n('two_generator_sequences'),
+        iteration=dict(steps=ctx.n('iteration_steps'), creations_after_an_iteration=ctx.n('creations_after_iteration'),
+                       forms=['it = iter(g); next(it)'] + ['%s (1..%d values)' % (h, ITER_MAX_TAKE) for h in
+                                                           ('for v in g: ... break', 'itertools.islice(g, n)', 'zip(range(n), g)')],
+                       iterators_per_history=ITER_MAX_ITERATORS, creations=ITER_NEW, two_generator_ops=C_OPS),
         live_edit=dict(steps=ctx.n('live_edit_steps'), creations_after_an_edit=ctx.n('creations_after_live_edit'),
                        edits=D_EDITS, max_edits=D_MAX_EDITS, replacement_generators=D_SWAPS, max_replacements=D_MAX_SWAPS),
         bounds=dict(attribute_lists='length <= 3 over 5 core types%s' % ('' if ctx.quick else ' (length 4 with two spellings, '
